@@ -80,7 +80,8 @@ LEVEL_TEXT = ("proof (non-interference, pickle continuation: all traces / progra
 RULE = ("whole pipelines = archive kind (Grid, CVT x {kmeans, random, sobol, scrambled_sobol, halton, custom}, "
         "SlidingBoundaries, Proximity) x 1-3 emitters (EvolutionStrategy x 5 strategies x rankers, "
         "GradientArborescence, GradientOperator, Gaussian, IsoLine, GeneticAlgorithm) x {Scheduler, "
-        "BanditScheduler} x {int, root SeedSequence, spawned child / grandchild SeedSequence(x).spawn(n)[i]} seeds for "
+        "BanditScheduler} x {int, int >= 2**32, root SeedSequence, spawned child / grandchild "
+        "SeedSequence(x).spawn(n)[i]} seeds for "
         "every component (built anew per run), 2-8 iterations; each case is run 4 times (two global "
         "states with different interleaved foreign draws, pickled at a random iteration, one seed changed), and "
         "pipelines whose emitters are configured through es_kwargs (None / one dict each / ONE dict object shared "
@@ -101,8 +102,9 @@ ASSUMPTIONS = [
     "everything a pipeline carries between calls lives in the pickled object graph (checked by (ii), incl. "
     "fresh-process resumption)",
     "the evaluation function is deterministic (objective -|x|^2, measures = first two coordinates)",
-    "excluded: CVTArchive(seed=SeedSequence, centroid_method='kmeans') (rejected loudly by scikit-learn); "
-    "pickling of pipelines containing the pycma wrapper (excluded by the property)",
+    "excluded: pickling of pipelines containing the pycma wrapper (excluded by the property)",
+    "every generated pipeline is a valid configuration: an exception raised by pyribs or a library underneath it "
+    "(e.g. a seed that numpy accepts being refused) is a failing input, not a skipped case",
 ]
 TRUSTED_EXTRA = [
     "harness/translate/rng_sites.py: AST walk, import resolution, def-use pass and its table of random-capable "
@@ -197,7 +199,9 @@ def seed_kind(spec):
     """'int' | 'SeedSequence' (a root) | 'child' (obtained by spawn, possibly nested)."""
     if spec.get("child"):
         return "child"
-    return "SeedSequence" if spec.get("ss") else "int"
+    if spec.get("ss"):
+        return "SeedSequence"
+    return "bigint" if spec.get("seed", 0) >= 2**32 else "int"  # bigint: an int that does not fit in 32 bits
 
 
 def mkseed(v, spec, sibling=False):
@@ -695,9 +699,12 @@ def run_case(case, ctx=None):
         return Failure("oracle", f"same seeds, different global random state -> different results: {d} :: {what}",
                        detail=d.values)
     if oa.error is not None:
-        cnt("rejected:" + oa.error.split(":")[0])
-        case["_rejected"] = True
-        return None
+        # the generators only build valid configurations (seeds of every kind numpy accepts included): a component
+        # that refuses one does not honour its seed
+        cnt("raised:" + oa.error.split(":")[0])
+        last = oa.items[-2][0] if len(oa.items) > 1 else "the archive constructor"
+        return Failure("oracle", f"a valid seeded pipeline was refused with {oa.error.split(':')[0]} (after "
+                                 f"{last}) :: {what}", detail=oa.error)
     cnt("i:double-run-identical")
     # (iv) one es_kwargs dict object shared by several emitters == separate equal dicts
     if shares_es_kwargs(case):
@@ -864,8 +871,10 @@ SEED_KINDS = ["child", "int", "SeedSequence"]
 
 def seed_fields(rng, sk=None):
     """seed / ss / child entries of a component spec; sk forces the seed kind."""
-    sk = sk or rng.choice(["int", "int", "SeedSequence", "child", "child"])
-    out = {"seed": rng.randrange(1, 10**6), "ss": sk != "int"}
+    sk = sk or rng.choice(["int", "int", "SeedSequence", "child", "child", "bigint"])
+    out = {"seed": rng.randrange(1, 10**6), "ss": sk in ("SeedSequence", "child")}
+    if sk == "bigint":  # numpy takes any non-negative int; libraries underneath may only take 32 bits
+        out["seed"] += rng.choice([2**32 - 10**6, 2**32, 2**63, 2**64, 2**100])
     if sk == "child":
         path = []
         for _ in range(rng.choice([1, 1, 1, 2])):  # children and grandchildren
@@ -879,8 +888,6 @@ def archive_spec(rng, kind=None, method=None, sk=None):
     kind = kind or rng.choice(["grid", "cvt", "sliding", "proximity"])
     if kind == "cvt":
         method = method or rng.choice(CVT_METHODS)
-        if method == "kmeans":
-            sk = "int"  # scikit-learn rejects a SeedSequence random_state loudly (DESIGN section 3)
     spec = {"kind": kind, **seed_fields(rng, sk)}
     if kind == "cvt":
         spec["method"] = method
@@ -937,11 +944,13 @@ def gop_emitter(rng, sk=None):
 
 
 class Cycle:
-    """Systematic enumeration of a list of combinations (shuffled by the run's seed), then random."""
+    """Systematic enumeration of a list of combinations (`first` ones first, the others shuffled by the run's
+    seed), then random."""
 
-    def __init__(self, ctx, name, combos):
-        self.combos = list(combos)
-        ctx.rng("cycle", name).shuffle(self.combos)
+    def __init__(self, ctx, name, combos, first=()):
+        rest = [c for c in combos if c not in first]
+        ctx.rng("cycle", name).shuffle(rest)
+        self.combos = list(first) + rest
         self.i = 0
 
     def next(self, rng):
@@ -956,8 +965,10 @@ class Cycle:
 def strata(ctx):
     """name -> generator; every generator enumerates its axis of the quantifier systematically first."""
     arch_combos = [("grid", None), ("sliding", None), ("proximity", None)] + [("cvt", m) for m in CVT_METHODS]
-    cyc_arch = Cycle(ctx, "arch", [(k, m, sk) for (k, m) in arch_combos for sk in SEED_KINDS
-                                   if not (m == "kmeans" and sk != "int")])
+    # k-means (the default method) hands its seed to scikit-learn, which takes less than numpy does: those
+    # combinations come first in every run, the rest of the cross product follows in shuffled order
+    cyc_arch = Cycle(ctx, "arch", [(k, m, sk) for (k, m) in arch_combos for sk in SEED_KINDS + ["bigint"]],
+                     first=[("cvt", "kmeans", sk) for sk in ("SeedSequence", "bigint", "child")])
     rot = {"es": 0, "dqd": 0}  # the seed kind of the stratum's main emitter rotates: child, int, SeedSequence, ...
     cyc_es = Cycle(ctx, "es", [(es, r) for es in ES_NAMES for r in RANKERS])
     cyc_dqd = Cycle(ctx, "dqd", [("ga", es, r) for es in ES_NAMES for r in ("imp", "2imp", "rd", "obj")]
